@@ -54,6 +54,7 @@ fn default_runs(prop: &str, tier: &str) -> u64 {
         "C13" => 20_000,
         "C14" => 20_000,
         "C16" => 15_000,
+        "C17" => 20_000,
         _ => 4_000,
     };
     if tier == "thorough" {
@@ -101,6 +102,8 @@ fn main() {
         Some("run") => cmd_run(&args[2..]),
         Some("replay") => cmd_replay(&args[2..]),
         Some("digest") => cmd_digest(&args[2..]),
+        Some("dump") => cmd_dump(&args[2..]),
+        Some("steplog") => cmd_steplog(&args[2..]),
         _ => {
             eprintln!("usage: ixsim run|replay|digest ...");
             2
@@ -146,6 +149,71 @@ fn cmd_digest(args: &[String]) -> i32 {
     );
     if let Some(p) = arg(args, "--evidence-part") {
         write_evidence_part(p, &o, &out, 0);
+    }
+    0
+}
+
+/// Re-generate run `--index` of a batch and write it as an explicit op list (buildmatrix replay file).
+fn cmd_dump(args: &[String]) -> i32 {
+    let prop = arg(args, "--prop").unwrap_or("C17").to_string();
+    let seed: u64 = arg(args, "--seed").and_then(|s| s.parse().ok()).unwrap_or(1);
+    let idx: u64 = arg(args, "--index").and_then(|s| s.parse().ok()).unwrap_or(0);
+    let Some(path) = arg(args, "--out") else {
+        eprintln!("--out required");
+        return 2;
+    };
+    let (rseed, gcfg, out) = run::run_generated(&prop, seed, idx, None);
+    let rp = Replay {
+        engine: "buildmatrix".into(),
+        engine_version: run::ENGINE_VERSION,
+        property: prop.clone(),
+        batch_seed: seed,
+        run_index: idx,
+        run_seed: rseed,
+        profile: profile_built().into(),
+        features: features_built(),
+        cfg: gcfg.exec.clone(),
+        ops: out.ops.clone(),
+        violation: ops::ViolationRec {
+            property: prop,
+            step: out.ops.len().saturating_sub(1),
+            kind: "event_log_differs_between_builds".into(),
+            op: out.ops.last().map(|o| o.name()).unwrap_or("-").into(),
+            rel: "-".into(),
+            detail: String::new(),
+        },
+        minimised: false,
+        original_len: out.ops.len(),
+        note: String::new(),
+    };
+    match std::fs::write(path, serde_json::to_string_pretty(&rp).unwrap()) {
+        Ok(()) => 0,
+        Err(e) => {
+            eprintln!("cannot write {}: {}", path, e);
+            2
+        }
+    }
+}
+
+/// Print the cumulative event-log digest after every op of a replay file (one per line).
+fn cmd_steplog(args: &[String]) -> i32 {
+    let Some(path) = args.first() else {
+        eprintln!("usage: ixsim steplog FILE");
+        return 2;
+    };
+    let rp: Replay = match std::fs::read_to_string(path).map_err(|e| e.to_string()).and_then(|t| serde_json::from_str(&t).map_err(|e| e.to_string())) {
+        Ok(r) => r,
+        Err(e) => {
+            eprintln!("cannot load {}: {}", path, e);
+            return 2;
+        }
+    };
+    let out = run::exec_list(&rp.property, &rp.cfg, &rp.ops);
+    for (i, d) in out.steplog.iter().enumerate() {
+        println!("{} {:016x} {}", i, d, rp.ops[i].name());
+    }
+    if let Some(f) = out.found {
+        println!("found {} {} {}", f.at, f.viol.kind, f.viol.detail);
     }
     0
 }
@@ -218,7 +286,15 @@ fn cmd_run(args: &[String]) -> i32 {
         "ixsim: property={} tier={} VERIF_SEED={} runs={} threads={} profile={} features={}",
         prop, tier, seed, runs, threads, o.profile, o.features
     );
-    let out = run::run_batch(&o, false);
+    let digests_out = arg(args, "--digests-out");
+    let out = run::run_batch(&o, digests_out.is_some());
+    if let Some(p) = digests_out {
+        let mut t = String::new();
+        for (i, d) in &out.digests {
+            t.push_str(&format!("{} {:016x}\n", i, d));
+        }
+        let _ = std::fs::write(p, t);
+    }
     let mut code = 0;
     let mut nviol = 0;
     for (sig, (text, n)) in &out.known_seen {
